@@ -45,7 +45,11 @@ static int ord_ci(const void *a, size_t al, const void *b, size_t bl) {   /* NOT
     for (size_t i = 0; i < n; i++) { unsigned char p = x[i], q = y[i]; if (p >= 'A' && p <= 'Z') p += 32; if (q >= 'A' && q <= 'Z') q += 32; if (p != q) return p < q ? -1 : 1; }
     return al == bl ? 0 : (al < bl ? -1 : 1);
 }
-#define COUNTING(name, base) static int name(const void *a, size_t al, const void *b, size_t bl) { cmp_calls++; return base(a, al, b, bl); }
+/* a user-supplied ordering is ordinary code: it may look keys up in another table (a miss leaves ENOENT), parse numbers (ERANGE), allocate (ENOMEM).
+ * In every third case the installed comparators leave such a value in errno; the table must not take it for the outcome of its own operation. */
+static bool cmp_sets_errno;
+#define COUNTING(name, base) static int name(const void *a, size_t al, const void *b, size_t bl) { cmp_calls++; int r = base(a, al, b, bl); \
+    if (cmp_sets_errno) { static const int E[] = {ENOENT, ENOMEM, 0, EINVAL, ENOENT, ERANGE, ENOMEM}; errno = E[(cmp_calls + (r > 0)) % 7]; } return r; }
 COUNTING(cnt_bytes, ord_bytes) COUNTING(cnt_rev, ord_rev) COUNTING(cnt_len, ord_len) COUNTING(cnt_sfx, ord_sfx) COUNTING(cnt_ci, ord_ci)
 /* configuration 0 leaves the library's default comparator in place */
 static const struct { const char *name; cmp_t model; cmp_t installed; } ORD[] = {
@@ -167,8 +171,8 @@ static bool judge(const char *prop, const char *key, const char *fmt, ...) {
 /* exact-size heap copy of caller data, optionally at an odd offset inside its block
  * (block end == data end, so any over-read leaves the allocation) */
 typedef struct { unsigned char *base, *p; size_t n; } cbuf_t;
-static cbuf_t cb_make(const void *src, size_t n, bool odd) {
-    cbuf_t c; size_t off = odd ? 1 : 0;
+static cbuf_t cb_make(const void *src, size_t n, unsigned off) {   /* off: the copy starts at this offset inside its block (0..3): equal keys reach the library through differently aligned pointers */
+    cbuf_t c;
     c.base = hm_alloc(n + off); c.p = c.base + off; c.n = n;
     if (n) memcpy(c.p, src, n);
     return c;
@@ -184,6 +188,7 @@ static void table_new(void) {
     { static unsigned long tctr; tctr++; T = qtreetbl(TREE_OPT | ((P != 15 && (tctr & 1)) ? QTREETBL_THREADSAFE : 0)); }
     if (!T) { fprintf(stderr, "qtreetbl() failed\n"); exit(2); }
     if (ORD[ORDI].installed) T->set_compare(T, ORD[ORDI].installed);
+    cmp_sets_errno = ORD[ORDI].installed && (vf_cur_case % 3) == 1; if (cmp_sets_errno) vf_count("tables_whose_comparator_leaves_errno_values", 1);
     MCMP = ORD[ORDI].model;
     m_clear();
     abandon = false; pending_walk = false; fresh_insert = root_changed = false;
@@ -270,7 +275,7 @@ static void content_check(void) {
         size_t sz = 12345; errno = 0;
         void *d = T->getobj(T, UK[id].k, UK[id].kl, &sz, false);
         if (f) {
-            if (!d && (ME[p].vl || errno == ENOENT)) { judge("C01", "key-lost", "key %d (%s) vanished", id, vf_hex(UK[id].k, UK[id].kl)); return; }
+            if (!d && (ME[p].vl || (errno == ENOENT && !cmp_sets_errno)))   /* an empty value reads as NULL; errno tells it from "absent" only while the comparator leaves errno alone */  { judge("C01", "key-lost", "key %d (%s) vanished", id, vf_hex(UK[id].k, UK[id].kl)); return; }
             if (!val_ok(d, sz, p)) { judge("C01", "value-changed", "key %d holds wrong value (size %zu, expected %zu)", id, sz, ME[p].vl); return; }
         } else if (d) { judge("C01", "phantom-key", "absent key %d (%s) found", id, vf_hex(UK[id].k, UK[id].kl)); return; }
     }
@@ -314,7 +319,7 @@ static void op_put(int id) {
     size_t vl = gen_value(api >= 2);
     bool nullval = false;
     if (api < 3 && rng_chance(&R, 1, 12)) { vl = 0; nullval = api == 2 || rng_chance(&R, 1, 2); vf_count("put_empty_value", 1); }   /* zero-length value, as a NULL or a non-NULL pointer */
-    cbuf_t kb = cb_make(k->k, k->kl, P == 11 && rng_chance(&R, 1, 2));
+    cbuf_t kb = cb_make(k->k, k->kl, rng_below(&R, 4));
     cbuf_t vb = cb_make(VBUF, vl, false);
     qtreetbl_obj_t *oldroot = T->root;
     bool r;
@@ -342,7 +347,7 @@ static void op_get(int id) {
     bool newmem = rng_chance(&R, 1, 2);
     bool f; int p = m_find(k->k, k->kl, &f);
     if (api == 2 && f && (ME[p].vl == 0 || ME[p].v[ME[p].vl - 1] != 0 || strlen((char *)ME[p].v) + 1 != ME[p].vl)) api = 1;
-    cbuf_t kb = cb_make(k->k, k->kl, P == 11 && rng_chance(&R, 1, 2));
+    cbuf_t kb = cb_make(k->k, k->kl, rng_below(&R, 4));
     size_t sz = 777; void *d; errno = 0;
     vf_log("get[%d,newmem=%d] k%d", api, newmem, id);
     oom_begin();
@@ -368,7 +373,7 @@ static void op_get(int id) {
 static void op_remove(int id) {
     ukey_t *k = &UK[id];
     int api = k->is_str ? (int)rng_below(&R, 2) : 0;
-    cbuf_t kb = cb_make(k->k, k->kl, P == 11 && rng_chance(&R, 1, 2));
+    cbuf_t kb = cb_make(k->k, k->kl, rng_below(&R, 4));
     qtreetbl_obj_t *oldroot = T->root;
     bool wasroot = T->root && MCMP(T->root->name, T->root->namesize, k->k, k->kl) == 0;
     bool inner = false;
